@@ -449,7 +449,7 @@ def features(case, obs):
 def to_coq(case, obs):
     via = case["via"]
     if via[0] == "api":
-        v = "(ViaApi " + {"dict": "TrDict", "json": "TrJson", "yaml": "TrYaml"}[via[1]] + ")"
+        v = f"(ViaApi {cstr(via[1])})"
     elif via[0] == "file":
         v = f"(ViaFile {cstr(via[1])})"
     else:
